@@ -318,6 +318,19 @@ def discharge_one(an, ob):
                 if st2.le(s, e) and st2.le(e, lt):
                     return Outcome(ob, True, "INT", "start <= end <= len")
             return Outcome(ob, False, None, "drain range not provably within the collection")
+        if nm == "copy_within":
+            # copy_within(src, dest): src within the slice and dest + src.len() <= len; decided for dest <= src.start (then dest + count <= src.end)
+            st2 = st.copy()
+            lt = _len_of(an, st2, t, 0, args, "q")
+            rk = _argkey(an, st2, t, 1)
+            s, e, kind = range_terms(an, st2, rk, t["arg_tys"][1]) if rk else (None, None, None)
+            td = st2.term(args[2]) if len(args) > 2 else None
+            if kind and lt is not None and s is not None and td is not None:
+                if e is None:
+                    e = lt
+                if st2.le(s, e) and st2.le(e, lt) and st2.le(td, s):
+                    return Outcome(ob, True, "INT", "source range within the slice, destination not after its start")
+            return Outcome(ob, False, None, "copy_within ranges not provably within the slice")
         return Outcome(ob, False, None, "library precondition of %s not modelled" % nm)
     if ob.kind == "LOSSY":
         s = body.blocks[ob.bb]["stmts"][ob.stmt_index]
